@@ -14,11 +14,11 @@ def check(run):
     combos = QUICK if q else [(d, t) for d in ("box", "bds", "oct") for t in shapelib.TYPES]
     plans = []
     for dom, ty in combos:
-        plans.append(dict(dom=dom, ty=ty, maxlen=9, maxdim=2, ill=0, coef=3, num=(160 if q else 2500), recipe=True))
-        plans.append(dict(dom=dom, ty=ty, maxlen=10, maxdim=3, ill=3, coef=3, num=(80 if q else 1200)))
+        plans.append(dict(dom=dom, ty=ty, maxlen=9, maxdim=2, ill=0, coef=3, num=(160 if q else 700), recipe=True))
+        plans.append(dict(dom=dom, ty=ty, maxlen=10, maxdim=3, ill=3, coef=3, num=(80 if q else 350)))
     # transformer-focused recipes (the deduction rules of the relational transformers need bounded operands and fractional coefficients)
     for dom, ty in ([("oct", "mpq"), ("bds", "mpq"), ("box", "mpq"), ("oct", "i16"), ("bds", "flt")] if q else combos):
-        plans.append(dict(dom=dom, ty=ty, maxlen=9, maxdim=2, ill=0, coef=3, num=(900 if q else 5000), recipe=True, opset=shapelib.IMG_OPS + shapelib.IMG_BASE))
+        plans.append(dict(dom=dom, ty=ty, maxlen=9, maxdim=2, ill=0, coef=3, num=(900 if q else 1500), recipe=True, opset=shapelib.IMG_OPS + shapelib.IMG_BASE))
     shapelib.run_shapes(run, "C03", plans)
     run.assumptions += ["an element with a coefficient beyond 10^5 can be judged as a result (exact BigInt comparison) but not serve as an argument of a later call (undecided)",
                         "calls involving proper congruences are undecided (the result is not a polyhedral set); conversions from grids are not covered",
